@@ -34,7 +34,7 @@ structure Inv (cfg : Cfg) (s : State) : Prop where
 
 /-- announcements come from other peers (the node's own go through `store` / `reannounce`) -/
 def OpWf (cfg : Cfg) : Op → Prop
-  | .announce _ _ p _ _ _ _ => p ≠ cfg.self
+  | .announce _ _ _ p _ _ _ _ => p ≠ cfg.self
   | _ => True
 
 def OpsWf (cfg : Cfg) (ops : List Op) : Prop := ∀ op ∈ ops, OpWf cfg op
@@ -242,23 +242,35 @@ theorem inv_store {cfg : Cfg} {s : State} (h : Inv cfg s) (c : String) (ttl : In
   · exact selfOk_addContact (selfOk_put h.self _ _ _ _ _ _ _ _) s.now c cfg.self _ hint
       (fun _ => ⟨_, mem_aset_self _ _ _⟩)
 
-theorem inv_ingest {cfg : Cfg} {s : State} (h : Inv cfg s) (c : String) (e : Int) : Inv cfg (ingest cfg s c e) := by
+theorem inv_ingest {cfg : Cfg} {s : State} (h : Inv cfg s) (c : String) (e : Int) (same : Bool) :
+    Inv cfg (ingest cfg s c e same) := by
   unfold ingest
   split
   · exact h
   · rename_i t ht
     obtain ⟨h1, h2⟩ := manifestTtl_some ht
-    exact inv_acceptManifest h c h1 h2
+    split
+    · exact h
+    · exact inv_acceptManifest h c h1 h2
 
-theorem inv_announce {cfg : Cfg} {s : State} (h : Inv cfg s) (c : String) (e : Int) (p : String) (pid : Routing.Id)
-    (addr : String) (ttl : Int) (hint : Option (List String)) (hp : p ≠ cfg.self) :
-    Inv cfg (announce cfg s c e p pid addr ttl hint) := by
+theorem inv_announce {cfg : Cfg} {s : State} (h : Inv cfg s) (c : String) (e : Int) (same : Bool) (p : String)
+    (pid : Routing.Id) (addr : String) (ttl : Int) (hint : Option (List String)) (hp : p ≠ cfg.self) :
+    Inv cfg (announce cfg s c e same p pid addr ttl hint) := by
   unfold announce
   split
   · exact h
   · rename_i t ht
     obtain ⟨h1, h2⟩ := manifestTtl_some ht
-    have h' := inv_acceptManifest h c h1 h2
+    -- whether or not the manifest is adopted, the intermediate state satisfies the invariant and keeps the clock
+    have h' : Inv cfg (if (EphVerif.Gen.C05.announceGuardsHeld && !(keepsReadable s c same)) = true then s
+        else acceptManifest cfg s c e t) := by
+      split
+      · exact h
+      · exact inv_acceptManifest h c h1 h2
+    have hl : (if (EphVerif.Gen.C05.announceGuardsHeld && !(keepsReadable s c same)) = true then s
+        else acceptManifest cfg s c e t).lastCleanup = s.lastCleanup := by split <;> rfl
+    generalize (if (EphVerif.Gen.C05.announceGuardsHeld && !(keepsReadable s c same)) = true then s
+        else acceptManifest cfg s c e t) = s1 at h' hl ⊢
     simp only
     split
     · exact h'
@@ -266,8 +278,8 @@ theorem inv_announce {cfg : Cfg} {s : State} (h : Inv cfg s) (c : String) (e : I
         (if (if ttl > 0 then ttl else t) > t then t else (if ttl > 0 then ttl else t)) cfg.node.minTtl cfg.node.maxTtl)
       have htime := h.time
       exact ⟨h'.time, h'.recs,
-        locsOk_addContact h'.locs c p _ hint (by show s.lastCleanup < s.now + _; omega),
-        routesOk_add h'.routes _ _ (by show s.lastCleanup < s.now + _; omega),
+        locsOk_addContact h'.locs c p _ hint (by rw [hl]; omega),
+        routesOk_add h'.routes _ _ (by rw [hl]; omega),
         h'.shards, h'.cache, h'.plans,
         selfOk_addContact h'.self s.now c p _ hint (fun hh => absurd hh hp)⟩
 
@@ -350,8 +362,8 @@ theorem inv_step {cfg : Cfg} {s : State} (h : Inv cfg s) (op : Op) (hw : OpWf cf
     have := h.time
     exact ⟨by show s.lastCleanup ≤ s.now + d; omega, h.recs, h.locs, h.routes, h.shards, h.cache, h.plans, h.self⟩
   | store c ttl hint => exact inv_store h c ttl hint
-  | ingest c e => exact inv_ingest h c e
-  | announce c e p pid addr ttl hint => exact inv_announce h c e p pid addr ttl hint hw
+  | ingest c e same => exact inv_ingest h c e same
+  | announce c e same p pid addr ttl hint => exact inv_announce h c e same p pid addr ttl hint hw
   | reannounce c ttl hint => exact inv_reannounce h c ttl hint
   | lookup c => exact inv_lookup h c
   | probe c => exact inv_probe h c
